@@ -81,6 +81,9 @@ EXHAUSTIVE = {"quick": False, "thorough": False}
 F_ALPHA = "C19-K5-alpha-codes-repeat-across-runs"
 
 CSV_TEXT = "a,b\n1,x\n2,y\n3,z\n4,w\n5,v\n"
+PLUGIN_TEXT = ("from snowfakery import SnowfakeryPlugin\n\n\nclass Doubler(SnowfakeryPlugin):\n"
+               "    class Functions:\n        def double(self, x):\n            return int(x) * 2\n")
+PLUGIN_RECIPE = "- plugin: c19_plug.Doubler\n- object: T\n  count: 2\n  fields:\n    n: ${{Doubler.double(id + 20)}}\n"
 CSV_OTHER = "a,b\n91,ox\n92,oy\n93,oz\n"        # data.csv of the OTHER directory
 SHARED_OPTS = {"pid": 7}          # a non-empty options dict owned by the embedding application
 
@@ -316,9 +319,33 @@ DATE_KEYS = [("s", "2020-01-05", True), ("s", "2021-02-03", True), ("s", "March 
 DT_KEYS = [("s", "2020-01-05T10:00:00", True), ("s", "2021-02-03 04:05:06+02:00", True),
            ("d", "2020-01-05T10:00:00", True), ("s", "2020-01-05", True),
            ("s", "now", True), ("s", "now", True), ("s", "today", True),
+           ("s", "-30d", True), ("s", "+1y", True), ("s", "-1w+2h", True),
            ("s", "not a time", False)]
 COUNTER_NAMES = {"foo": (5, 2), "bar": (1, 1), "baz": (10, 10)}
 TABLES = ["A", "B", "C", "P"]
+
+
+_REL = re.compile(r"([+-]\d+y)?([+-]\d+M)?([+-]\d+w)?([+-]\d+d)?([+-]\d+h)?([+-]\d+m)?([+-]\d+s)?", re.ASCII)
+
+
+def clock_kind(tag, key):
+    """keys parse_datetimespec answers from the clock (never cached): now | today | rel | None"""
+    if tag != "s":
+        return None
+    if key in ("now", "today"):
+        return key
+    if key and _REL.fullmatch(key):
+        return "rel"
+    return None
+
+
+def rel_offset(key):
+    """offset of a relative spec as the code computes it (Faker's own _parse_timedelta)"""
+    try:
+        from faker.providers.date_time import Provider
+        return datetime.timedelta(seconds=Provider._parse_timedelta(key))
+    except Exception:
+        return None
 
 
 def model_key(tag, key):
@@ -330,8 +357,8 @@ def boundary_key(rid):
 
 
 def gen_prog(rng, fail_p=0.22, weights=None):
-    w = dict(lit=2, idplus=2, uid=3, puid=1.5, alpha=1.5, date=3, datetime=3, counter=3, datecounter=1.2,
-             lazy=1.2, version=1, )
+    w = dict(lit=2, idplus=2, uid=3, puid=1.5, alpha=1.5, date=3, datetime=3, dtbetween=1.2, counter=3,
+             datecounter=1.2, lazy=1.2, version=1, )
     if weights:
         w.update(weights)
     kinds, ws = zip(*w.items())
@@ -351,9 +378,9 @@ def gen_prog(rng, fail_p=0.22, weights=None):
             elif k == "date":
                 tag, key, valid = rng.choice(DATE_KEYS[:5] if rng.random() < 0.9 else DATE_KEYS)
                 fields.append(["date", tag, key, valid])
-            elif k == "datetime":
-                tag, key, valid = rng.choice(DT_KEYS[:7] if rng.random() < 0.9 else DT_KEYS)
-                fields.append(["datetime", tag, key, valid])
+            elif k in ("datetime", "dtbetween"):
+                tag, key, valid = rng.choice([x for x in DT_KEYS if x[2]] if rng.random() < 0.9 else DT_KEYS)
+                fields.append([k, tag, key, valid])
             elif k == "counter":
                 if rng.random() < 0.55:
                     name = rng.choice(sorted(COUNTER_NAMES))
@@ -456,6 +483,12 @@ def prog_yaml(spec):
                 q = '"' if f[1] == "s" else ""
                 L.append(f"    {name}:")
                 L.append(f"      {k}: {q}{f[2]}{q}")
+            elif k == "dtbetween":          # both bounds are the same spec: two calls of parse_datetimespec
+                q = '"' if f[1] == "s" else ""
+                L.append(f"    {name}:")
+                L.append("      datetime_between:")
+                L.append(f"        start_date: {q}{f[2]}{q}")
+                L.append(f"        end_date: {q}{f[2]}{q}")
             elif k == "dtf":
                 L.append(f"    {name}:")
                 L.append("      datetime: \"2020-01-${{'%02d' % (id % 28 + 1)}}T${{'%02d' % (id // 28)}}:00:00\"")
@@ -511,6 +544,8 @@ def prog_trace(spec):
                         op = f"(ODate {C.cstr(model_key(f[1], f[2]))})"
                     elif k == "datetime":
                         op = f"(ODatetime {C.cstr(model_key(f[1], f[2]))})"
+                    elif k == "dtbetween":
+                        op = f"(ODatetime {C.cstr(model_key(f[1], f[2]))}); (ODatetime {C.cstr(model_key(f[1], f[2]))})"
                     elif k == "dtf":
                         op = f"(ODatetime {C.cstr(boundary_key(rid))})"
                     elif k == "counter":
@@ -541,11 +576,9 @@ def prog_features(spec):
         for f in t["fields"]:
             if f[0] == "counter" and f[1]:
                 out.add("named_counter")
-            if f[0] == "datetime" and f[2] == "now":
-                out.add("clock_now")
-            if f[0] == "datetime" and f[2] == "today":
-                out.add("clock_today")
-            if f[0] in ("date", "datetime") and not f[3]:
+            if f[0] in ("datetime", "dtbetween") and clock_kind(f[1], f[2]):
+                out.add("clock_" + clock_kind(f[1], f[2]))
+            if f[0] in ("date", "datetime", "dtbetween") and not f[3]:
                 out.add("bad_key")
     if spec.get("broken"):
         out.add("parse_failure")
@@ -723,6 +756,11 @@ def _directed(rng, pool_yaml):
     ver_none = prog([{"table": "A", "count": 1, "fields": [["version"], ["idplus", 2]]}])
     now = prog([{"table": "A", "count": 2, "fields": [["datetime", "s", "now", True]]}])
     today = prog([{"table": "A", "count": 1, "fields": [["datetime", "s", "today", True]]}])
+    rel = prog([{"table": "A", "count": 2, "fields": [["datetime", "s", "-30d", True], ["dtbetween", "s", "-30d", True],
+                                                      ["datetime", "s", "+1y", True]]}])
+    rel2 = prog([{"table": "B", "count": 1, "fields": [["dtbetween", "s", "-1w+2h", True], ["dtbetween", "s", "now", True],
+                                                       ["dtbetween", "s", "2020-01-05T10:00:00", True],
+                                                       ["datetime", "s", "-30d", True]]}])
 
     out.append(seq([uid_all, uid_all]))                                     # shortest, same recipe twice
     out.append(seq([uid_all, plain, uid_all, fail_mid, uid_all, uid_all], api="generate_data"))   # longest
@@ -739,12 +777,23 @@ def _directed(rng, pool_yaml):
     out.append(seq([ver_none, ver3, ver_none], shared_opts=3))              # the application itself asks for version 3
     out.append(seq([now, plain, now]))                                      # repaired fc3a5e8: stale clock
     out.append(seq([today, today]))
+    out.append(seq([rel, plain, rel, rel2, rel], api="generate_data"))       # bfa3786: relative specs are clock readings
+    out.append(seq([rel2, fail_mid, rel2, rel]))
     out.append(seq([Y["dataset_iterate_named"], Y["dataset_iterate_named"], Y["dataset_missing"], Y["dataset_iterate"]]))
     # a run that fails while opening a dataset of a recipe FILE in another directory, then relative paths
     out.append(seq([Y["dataset_rel_stream"], Y["dataset_missing_file_other"], Y["dataset_rel_stream"]], api="generate_data"))
     out.append(seq([Y["dataset_rel_file_other"], Y["dataset_bad_extension_file_other"], Y["dataset_rel_stream"],
                     Y["dataset_rel_file_work"], Y["dataset_rel_file_other"]]))
     out.append(seq([Y["dataset_missing_file_other"], Y["dataset_rel_stream"]], fresh="spawn"))
+    # a plugin that cannot be found from the working directory (the run fails), then the same dotted name
+    # from a recipe FILE that has it in its plugins/ directory (directed only: the opposite order depends on
+    # Python's own sys.modules cache)
+    plug_missing = {"k": "yaml", "name": "local_plugin_not_found_stream", "text": PLUGIN_RECIPE, "random_fields": [],
+                    "reps": 1, "features": ["local_plugin", "fails"]}
+    plug_found = {"k": "yaml", "name": "local_plugin_file_other", "text": PLUGIN_RECIPE, "random_fields": [],
+                  "reps": 1, "features": ["local_plugin", "recipe_file"], "dir": "other"}
+    out.append(seq([plug_missing, plug_missing, plug_found], api="generate_data"))
+    out.append(seq([plug_missing, plain, plug_found]))
     out.append(seq([Y["dataset_rel_file_other"], Y["dataset_rel_stream"], Y["dataset_rel_file_work"]], api="generate_data"))
     out.append(seq([Y["nick_var"], Y["uses_undefined_names"], Y["nick_var_other_meaning"], Y["uses_undefined_names"]]))
     out.append(seq([Y["just_once_nick"], Y["uses_first_only"], Y["uses_table_A_only"], Y["nick_var"], Y["uses_first_only"]]))
@@ -934,7 +983,7 @@ def _view(opts):
 
 def _uses_random(spec):
     if spec["k"] == "prog":
-        return any(f[0] == "lazy" for t in spec["templates"] for f in t["fields"])
+        return any(f[0] in ("lazy", "dtbetween") for t in spec["templates"] for f in t["fields"])
     if spec["k"] == "yaml":
         return "random" in spec.get("features", []) or bool(spec.get("random_fields"))
     return False
@@ -1087,6 +1136,9 @@ def run_impl(case):
             for fn in ("data.csv", "data.txt"):
                 with open(os.path.join(tmp, d, fn), "w") as f:
                     f.write(txt)
+        os.mkdir(os.path.join(tmp, "other", "plugins"))       # a local plugin next to the recipe files of `other`
+        with open(os.path.join(tmp, "other", "plugins", "c19_plug.py"), "w") as f:
+            f.write(PLUGIN_TEXT)
         csv_path = os.path.join(tmp, "work", "data.csv")
         base = {"api": case.get("api", "generate"), "shared": case.get("shared_opts") or False,
                 "seed": case.get("seed", 1), "csv": csv_path, "root": tmp}
@@ -1137,11 +1189,14 @@ def _parse_dt(val):
     return None
 
 
-def _window(val, windows):
-    """1-based index of the run whose time window contains the datetime value, 0 = none"""
+def _window(val, windows, offset=None):
+    """1-based index of the run whose time window contains the datetime value (minus the offset of
+    a relative spec), 0 = none"""
     d = _parse_dt(val)
     if d is None:
         return 0
+    if offset is not None:
+        d = d - offset
     for j, (a, b) in enumerate(windows):
         if a <= d <= b:
             return j + 1
@@ -1215,18 +1270,20 @@ def _obs_terms(spec, rows, codes, windows, learn, dtab, dttab):
                     out.append(f"(BVal {dtab[key]})")
                 else:
                     out.append(f"(BVal {codes.lookup(['date', v])})")
-            elif kind in ("datetime", "dtf"):
-                if kind == "datetime" and f[2] == "now" and f[1] == "s":
-                    out.append(f"(BVal {_window(v, windows)})")
-                elif kind == "datetime" and f[2] == "today" and f[1] == "s":
-                    out.append("(BVal 0)")
+            elif kind in ("datetime", "dtf", "dtbetween"):
+                ck = clock_kind(f[1], f[2]) if kind != "dtf" else None
+                if ck in ("now", "rel"):
+                    t = f"(BVal {_window(v, windows, rel_offset(f[2]) if ck == 'rel' else None)})"
+                elif ck == "today":
+                    t = "(BVal 0)"
                 else:
-                    key = model_key(f[1], f[2]) if kind == "datetime" else boundary_key(d["id"][1])
+                    key = boundary_key(d["id"][1]) if kind == "dtf" else model_key(f[1], f[2])
                     if learn:
                         dttab.setdefault(key, codes.code(["dt", v]))
-                        out.append(f"(BVal {dttab[key]})")
+                        t = f"(BVal {dttab[key]})"
                     else:
-                        out.append(f"(BVal {codes.lookup(['dt', v])})")
+                        t = f"(BVal {codes.lookup(['dt', v])})"
+                out.extend([t, t] if kind == "dtbetween" else [t])
             elif kind == "counter":
                 nm = f[1] or op.split('"')[1]
                 out.append(f"(BCount {C.cstr(nm)} {C.cz(v[1])})" if v[0] == "int" else "(BVal (-10))")
@@ -1289,7 +1346,7 @@ def coq_case(case, obs):
                             key, tab, valid = model_key(f[1], f[2]), dtab, f[3]
                         elif f[0] == "datecounter":
                             key, tab, valid = f[1], dtab, True
-                        elif f[0] == "datetime" and not (f[1] == "s" and f[2] in ("now", "today")):
+                        elif f[0] in ("datetime", "dtbetween") and not clock_kind(f[1], f[2]):
                             key, tab, valid = model_key(f[1], f[2]), dttab, f[3]
                         elif f[0] == "dtf":
                             key, tab, valid = boundary_key(last[t["table"]]), dttab, True
@@ -1330,9 +1387,9 @@ def _kind_class(f):
         return k
     if k == "lazyref":
         return "random"
-    if k == "datetime" and f[1] == "s" and f[2] == "now":
+    if k in ("datetime", "dtbetween") and clock_kind(f[1], f[2]) in ("now", "rel"):
         return "now"
-    if k == "datetime" and f[1] == "s" and f[2] == "today":
+    if k in ("datetime", "dtbetween") and clock_kind(f[1], f[2]) == "today":
         return "today"
     return "exact"
 
@@ -1419,13 +1476,14 @@ def analyse(case, obs):
                         res["leaks"].append(f"{tag}: row {k + 1} field {n}: {_shape(va)} in the sequence, {_shape(vb)} alone")
                 elif c == "now":
                     d = _parse_dt(va)
+                    off = rel_offset(fspec[2]) if fspec is not None and clock_kind(fspec[1], fspec[2]) == "rel" else None
                     if d is None or _parse_dt(vb) is None:
                         if va[0] != vb[0]:
                             res["leaks"].append(f"{tag}: row {k + 1} field {n}: {va[0]} / {vb[0]}")
-                    elif d < windows[i][0]:
-                        j = _window(va, windows)
-                        res["stale"].append(f"{tag}: row {k + 1} field {n}: `datetime: now` returned a time before this "
-                                            f"run started (the time of run {j or '?'})")
+                    elif (d - off if off is not None else d) < windows[i][0]:
+                        j = _window(va, windows, off)
+                        res["stale"].append(f"{tag}: row {k + 1} field {n}: clock spec `{fspec[2] if fspec else 'now'}` was read "
+                                            f"against a time before this run started (the time of run {j or '?'})")
         if run_ctx:
             max_ctx_before = max(max_ctx_before, max(run_ctx))
         # ids start at 1
@@ -1490,7 +1548,7 @@ def _seq_features(case):
     return fs
 
 
-STATEFUL = {"uid", "puid", "alpha", "date", "datetime", "dtf", "counter", "named_counter", "datecounter", "lazy",
+STATEFUL = {"uid", "puid", "alpha", "date", "datetime", "dtf", "dtbetween", "counter", "named_counter", "datecounter", "lazy",
             "dataset", "row_history", "memoised_plugin_value", "repeated_recipe", "random_reference_unique",
             "just_once", "nickname"}
 
